@@ -191,6 +191,8 @@ class Interp:
             return call_method(self, fv.obj, fv.name, args, kwargs)
         if isinstance(fv, ClassRef):
             return self.construct(fv, args, kwargs)
+        if isinstance(fv, Struct) and (fv.cls, "__call__") in C.STRUCT_METHODS:
+            return C.STRUCT_METHODS[(fv.cls, "__call__")](self, fv, args, kwargs)
         if isinstance(fv, ExtRef):
             m = C.EXTERNALS.get(fv.dotted)
             if m is None:
@@ -385,6 +387,10 @@ class Interp:
             s = a if isinstance(a, Sym) else b
             if other is None:
                 return False
+            if isinstance(other, Struct) and other.f.get("singleton") in ("Zero", "One", "NegativeOne") \
+                    and (z3.is_real(s.t) or z3.is_int(s.t)):
+                # sympy numbers equal to 0 / 1 / -1 are the singletons
+                return s.t == {"Zero": 0, "One": 1, "NegativeOne": -1}[other.f["singleton"]]
             if isinstance(other, bool) and z3.is_bool(s.t):
                 return zeq(s, other)
             if isinstance(other, (int, str)):
